@@ -71,6 +71,8 @@ type Sim struct {
 
 	Steps    int
 	MaxSteps int
+	// NoTick: steps do not move the clock by themselves (see tick). Only for scenarios without a ring client.
+	NoTick bool
 	start    time.Time
 
 	hash       uint64
@@ -455,9 +457,13 @@ func (s *Sim) sig(name string) {
 	s.sigHash = h
 }
 
-// tick makes virtual time strictly increasing across steps.
+// tick makes virtual time strictly increasing across steps (1 ns per step). A scenario may switch that off
+// (NoTick) so that timers, heartbeats and ages land on exact whole seconds, where >= / > boundaries differ.
 func (s *Sim) tick() {
 	s.Steps++
+	if s.NoTick {
+		return
+	}
 	s.mu.Lock()
 	s.rootActive = false
 	s.mu.Unlock()
